@@ -55,7 +55,7 @@ FBinOk(ev) ==
 (* consecutive elements ordered, equal elements in original order.         *)
 SortOk(ev) ==
     LET xs == ev.xs  p == ev.perm  n == Len(xs)
-    IN IF \E i \in 1..n, j \in 1..n : NumCmp(xs[i], xs[j]) = 2 THEN ev.out = "throw"
+    IN IF \E i \in 1..n, j \in 1..n : i # j /\ NumCmp(xs[i], xs[j]) = 2 THEN ev.out = "throw"
        ELSE /\ ev.out = "ok" /\ Len(p) = n
             /\ \A i \in 1..n : \E j \in 1..n : p[j] = i
             /\ \A j \in 1..(n - 1) :
@@ -65,7 +65,7 @@ SortOk(ev) ==
 (* min / max of a list: the first minimal / maximal element (position logged) *)
 ExtremumOk(ev) ==
     LET xs == ev.xs  n == Len(xs)
-    IN IF n = 0 \/ \E i \in 1..n, j \in 1..n : NumCmp(xs[i], xs[j]) = 2 THEN ev.out = "throw" \/ n = 1
+    IN IF n = 0 \/ \E i \in 1..n, j \in 1..n : i # j /\ NumCmp(xs[i], xs[j]) = 2 THEN ev.out = "throw"
        ELSE /\ ev.out = "ok"
             /\ LET want == CHOOSE i \in 1..n :
                               /\ \A j \in 1..n : IF ev.op = "min" THEN NumCmp(xs[j], xs[i]) >= 0
